@@ -385,6 +385,8 @@ def plan_C16(q, seed):
     jobs = [
         gen_job("deadclone", "DEAD", 16000 if q else 300000, time_limit=30 if q else 400),
         gen_job("deaddrop", "DEAD", 16000 if q else 300000, time_limit=30 if q else 400),
+        # a handle that escaped from a destructor (allocation kept by a Weak) cloned after the collection returned
+        gen_job("deadclonelate", "DEAD", 8000 if q else 150000, time_limit=20 if q else 300),
         e2(gen_job("deadclone", "DEAD", 2000 if q else 40000, time_limit=20 if q else 200)),
         e2(gen_job("deaddrop", "DEAD", 2000 if q else 40000, time_limit=20 if q else 200)),
         {"kind": "miri-child", "engine": "e3", "count": 12 if q else 200, "label": "deadclone-e3", "args": [], "lo": 0, "hi": 0},
